@@ -57,9 +57,9 @@ func (m mailbox) asciiLocal() bool {
 }
 func (m mailbox) idn() bool { return m.domU != m.domA }
 
-var asciiLocals = []string{"alice", "bob.smith", "carol+tag", "d_e-f", "Postmaster", "x", "info", "no-reply", "user.name+ext", "q1w2e3"}
+var asciiLocals = []string{"a-very-long-local-part-that-goes-on-and-on-0123456789-0123456789-x", "alice", "bob.smith", "carol+tag", "d_e-f", "Postmaster", "x", "info", "no-reply", "user.name+ext", "q1w2e3"}
 var utf8Locals = []string{"юзер", "用户", "josé", "δοκιμή", "mañana.ñ"}
-var asciiDomains = []string{"example.org", "mail.example.net", "sub.domain.test", "a.example", "example.com", "mx1.corp.example"}
+var asciiDomains = []string{"a-rather-long-domain-name.subdomain.of.another.example.org", "example.org", "mail.example.net", "sub.domain.test", "a.example", "example.com", "mx1.corp.example"}
 var idnDomains = []string{"тест.example", "bücher.example", "例え.jp", "müller.example.org", "почта.рф", "ñandú.example.net"}
 
 var idnA = map[string]string{}
